@@ -539,9 +539,10 @@ def rule_clause(repo, tier):
             ok = False
             if cmp_ is not None and len(cmp_.ops) == 1:
                 l, r, op = cmp_.left, cmp_.comparators[0], cmp_.ops[0]
-                if dotted(r) == 'self.decreasing' and isinstance(op, (ast.Lt, ast.LtE)):
+                has_thr = lambda z: any(dotted(y) == 'self.decreasing' for y in ast.walk(z))
+                if has_thr(r) and not has_thr(l) and isinstance(op, (ast.Lt, ast.LtE)):
                     expr = l
-                elif dotted(l) == 'self.decreasing' and isinstance(op, (ast.Gt, ast.GtE)):
+                elif has_thr(l) and not has_thr(r) and isinstance(op, (ast.Gt, ast.GtE)):
                     expr = r
                 else:
                     expr = None
@@ -550,6 +551,14 @@ def rule_clause(repo, tier):
                     pp = parities(num, lambda y: dotted(y) == prev)
                     pc = parities(num, lambda y: dotted(y) == cur and not isinstance(y, ast.Store))
                     ok = pp == {0} and pc == {1}
+                    # ReduceToBason documents and implements a RELATIVE decrease: the difference is measured against a loss
+                    # (quotient by the loss, or the threshold scaled by it).  StopOnPlateau's own example shows the absolute form.
+                    if ok and cls_ == 'ReduceToBason':
+                        thr = cmp_.comparators[0] if expr is cmp_.left else cmp_.left
+                        is_loss = lambda y: dotted(y) in (prev, cur)
+                        rel = (isinstance(expr, ast.BinOp) and isinstance(expr.op, ast.Div) and any(is_loss(y) for y in ast.walk(expr.right))) or \
+                              (isinstance(thr, ast.BinOp) and isinstance(thr.op, ast.Mult) and any(is_loss(y) for y in ast.walk(thr)))
+                        ok = ok and rel
                 # the true branch must be the incrementing one
                 neg = 0
                 tt = t
